@@ -2,7 +2,6 @@
 from pyvc.api import *
 
 shape('_WorkOrder', _final=True, target='const ref:Maintainable', tag='const any', needed_capacity='const real', info='const any')
-shape('Maintainable', name='str')
 shape('Maintainer', _capacity='ext', _utilization='real', _request_queue='list[ref:_WorkOrder]',
       _active_requests='list[ref:_WorkOrder]',
       _g_in_use='real')       # ghost: capacity of the orders in _active_requests, updated where that list is updated
